@@ -65,7 +65,8 @@ FIXED = [
 
 def gen_case(rng):
     labels = iter(range(1, 60))
-    rep = "float" if rng.random() < 0.3 else "td"
+    x = rng.random()
+    rep = "float" if x < 0.3 else "tz" if x < 0.5 else "td"     # tz: absolute due times as aware non-UTC datetimes
     big = rng.random() < 0.3
     u = Q if rep == "float" else 500            # float cases: every instant is a multiple of 1/64 s
     t0 = rng.choice([0, 10 * u])
@@ -94,8 +95,8 @@ def gen_case(rng):
     ticks = [rng.choice([u, u, 2 * u, 3 * u] + ([500000, 1000000, S15, D05 - S15] if big else []))
              for _ in range(rng.choice([0, 1, 2, 3]))]
     case = {"t0": t0, "progs": progs, "ticks": ticks}
-    if rep == "float":
-        case["repr"] = "float"
+    if rep != "td":
+        case["repr"] = rep
     if rng.random() < 0.3:
         # recursive scheduling from inside an action (one or two calls, up to two deep)
         bodies, depth, work = {}, {a: 0 for a in scheduled}, list(scheduled)
@@ -216,9 +217,10 @@ def run(chk):
         # timedelta / datetime arguments: microsecond offsets; float seconds / POSIX timestamps: offsets that are
         # multiples of 1/64 s (exact) and the long delays
         for rep, t0s, ds in (("td", (0, 5000), (-1000, -1, 0, 1, 1000, S15, D05)),
+                             ("tz", (0, 5000), (-1000, -1, 0, 1, 1000, S15)),
                              ("float", (0, 10 * Q), (-Q, 0, Q, S15, D05, -D05))):
             for t0 in t0s:
-                for later in (0, 700) if rep == "td" else (0, Q):
+                for later in (0, 700) if rep != "float" else (0, Q):
                     ops = [["now", 1]] + [["rel", d, 1] for d in ds] + [["abs", t0 + d, 1] for d in ds]
                     for op in ops:
                         log = R.run_immediate(t0, op, later, rep)
